@@ -33,6 +33,28 @@ CHECKS.update({
     note='A result that still contains an uncontracted short is accepted when electrically equivalent. Bounds: well-posed base networks up to 3 nodes / 3 branches (4 in thorough) augmented with up to 3 shorts and 2 opens (chains, stars, parallel, touching the reference), all operations, exemption subsets.' + COMMON_NOTE, ref='DESIGN.md §3 C16'),
 })
 
+
+CHECKS.update({
+ 'C07': dict(technique=TECH + '; polynomial identities against the statement\'s formulas',
+    text='Bounded symbolic verification of transform_circuit on one component of every kind components.py can construct (symbolic parameters, symbolic analysis frequency and resolution, varying position, neighbours and ground placement): z3 / normal form decide, in every region of the frequency gate, that the branch has the immittance and source value of the statement (R, 1/G, R+jX, 1/(G+jB), jwL, jwC, V_ref^2/P, A e^{j phi} in band, short/open off band, the true n-th harmonic for periodic sources obtained by integrating the waveform\'s own time function); ids, order, terminal order, neighbours\' values and the reference-node rule are asserted per path; the harness fails if components.py gains a constructor it does not know.',
+    note='Harmonic index of periodic sources bounded by 4; fundamental above twice the resolution; special values 0 / inf / w=0 as explicit cases.' + COMMON_NOTE, ref='DESIGN.md §3 C07'),
+ 'C08': dict(technique='symbolic execution of the real time functions (mod as contract stub, comparison forks) + exact closed-form integration; identities decided by normal form / z3 over Q(j)(A, e^{j phi}, offset, T, pi)',
+    text='Bounded symbolic verification: the piecewise description of each built-in waveform is extracted by executing its own time function on a symbolic instant; the true Fourier coefficient is computed from it by exact integration and compared as a polynomial identity with amplitude(n), phase(n), a(n), b(n), c(n), c(-n) of the real fourier_series objects for every harmonic order up to the bound, for all amplitudes, phases, offsets and periods; lookup by type name is asserted.',
+    note='Harmonic orders 0..12 (quick) / 0..60 (thorough); pi is a free transcendental atom (sound and complete for identities with rational coefficients); Parseval / mean-square convergence (an infinite sum) is not discharged.', ref='DESIGN.md §3 C08'),
+ 'C09': dict(technique=TECH + '; polar contract stub for abs/angle; symbolic ordering and coincidence of frequencies',
+    text='Bounded symbolic verification of frequency_components, FrequencyDomainSolution and TimeDomainSolution with symbolic source frequencies, w_max, time and values: all orderings / coincidences of the frequencies and all gate regions are explored; the analysed frequency list equals an independent list; each spectral line satisfies the tableau at its frequency (periodic sources contribute their true harmonic); the time functions equal sum_k Re(X_k e^{j w_k t}); two-sided spectra must be X_0, X_k/2, conj(X_k)/2; sources within the frequency resolution of each other must not be counted twice. Two genuine defects are recorded as known findings.',
+    note='At most 3 harmonics per periodic source below w_max; RC / RL (thorough: also RLC) circuits with 1-2 sources; KCL at every instant and superposition in the time domain are mathematical consequences of the discharged statements.' + COMMON_NOTE, ref='DESIGN.md §3 C09'),
+ 'C10': dict(technique=TECH + '; certificates up to product-saturation depth 2 after linear elimination of determined unknowns',
+    text='Bounded symbolic verification of the state-space builder and all output-row accessors with symbolic positive R, L, C and both inversions as contract stubs: with s X = A X + B U assumed for arbitrary complex s, X, U, z3 shows that C X + D U for all potentials, voltages and currents satisfies the phasor tableau at s and that X are the capacitor voltages / inductor currents; by uniqueness the transfer function equals the phasor response (DC gain included). Dimensions, published source order and the Circuit-level wrapper are asserted. Renamed / shuffled variants and symbolic label order cover naming and listing order.',
+    note='Circuits: all non-degenerate RLC + ideal-source circuits up to 2 nodes / 2 components (thorough: 3 nodes / 3), seeded samples up to 4 nodes / 4 (thorough 5 nodes / 6) with <= 3 reactive elements and <= 2 sources; degenerate circuits excluded by exact rank tests.' + COMMON_NOTE, ref='DESIGN.md §3 C10'),
+ 'C11': dict(technique=TECH + '; sum-of-squares (Tellegen) certificate, depth 3',
+    text='Bounded symbolic verification of passivity: with the code\'s own A and resistor-voltage rows z3 shows sum_k lambda_k X_k (A X)_k + sum_R (c_row_voltage(R) X)^2 / R = 0 for all real X and all positive R, L, C, i.e. W A + A^T W is negative semidefinite; eigenvalue and boundedness clauses are its mathematical consequences.',
+    note='Same circuit family as C10. The simulated-energy clause depends on the integrator, which is not encoded (see C12).' + COMMON_NOTE, ref='DESIGN.md §3 C11'),
+ 'C12': dict(technique=TECH + '; recording stubs for the integrator',
+    text='Bounded symbolic verification of the transient machinery without the integrator: for ARBITRARY state and input vectors the reported currents obey KCL at every node, voltages are potential differences, resistors obey Ohm, source rows equal their inputs, states are the capacitor voltages / inductor currents, capacitor current rows equal C*(A x + B u) and inductor voltage rows L*(A x + B u); TransientSolution feeds the inputs in the model\'s own source order by name with zero initial state and model (A,B,I,0) and its getters return c_row x_k + d_row u_k; continuous_state_space_solver hands exactly (A,B,C,D) and (U,T) to scipy and returns its result untouched.',
+    note='scipy.signal.lsim (compiled numerical code) is NOT encoded: accuracy of the simulated trajectory, agreement with the exact response for piecewise-linear inputs and settling to the DC / periodic steady state are outside this claim (they follow from lsim\'s documented contract together with C10 / C11).' + COMMON_NOTE, ref='DESIGN.md §3 C12'),
+})
+
 NOT_YET = {}
 
 def main():
